@@ -2,7 +2,7 @@
     TermList.h are the ones PV.Chi follows (closed computations: they stop checking when the source says something else), hence
     the [..._src] functions of PV.LehmannGenChi are the model functions, and the theorems of props/Properties_C02.v hold of them. *)
 Require Import Bool List Arith ZArith QArith Lia.
-From PV Require Import Outcome EDSpec Chi ChiProofs LehmannShapes LehmannInterp LehmannInterpProofs LehmannGenChi.
+From PV Require Import Outcome EDSpec Chi ChiProofs LehmannShapes LehmannInterp LehmannInterpProofs LehmannGenEquiv LehmannGenChi.
 From PVgen Require Import Gen_C01 Gen_Multiterm Gen_LehAddTerm Gen_LehTermListEval Gen_LehChaseIndices Gen_LehTPGFPartCompute
      Gen_LehAddMultiterm Gen_LehTPGFTermPlus Gen_LehTPGFPartEval Gen_LehTPGFEval Gen_LehTPGFCompute.
 Import ListNotations.
@@ -254,9 +254,9 @@ Proof. reflexivity. Qed.
 
 (** TwoParticleGF::operator(): if(Vanishing) return 0; else { Value = 0; for(parts) Value += part(z1,z2,z3); return Value; } and 2n+1 *)
 Lemma gen_tpgf_value_is_model :
-  gen_tpgf_value K NO = [VsIf VcVanishing [VsReturnZero] [VsInit; VsForParts AccPlus; VsReturnValue]] /\
+  vequiv (gen_tpgf_value K NO) [VsIf VcVanishing [VsReturnZero] [VsInit; VsForParts AccPlus; VsReturnValue]] /\
   forall n1 n2 n3 : Z, gen_tpgf_matsubara n1 n2 n3 = (2 * n1 + 1, 2 * n2 + 1, 2 * n3 + 1)%Z.
-Proof. split; reflexivity. Qed.
+Proof. split; [vequiv_auto|reflexivity]. Qed.
 End Leaves.
 
 (** TwoParticleGF::compute(clear, freqs, comm) and ComputeAndClearWrap::run: the order and the guards PV.Chi.gf_compute_gen / wrap_run
@@ -438,7 +438,7 @@ Qed.
 Theorem gf_value_src_is_model (tl : tols K) (s : gf_st K) (z1 z2 z3 : K) :
   LehmannGenChi.gf_value_src K NO tl s z1 z2 z3 = Chi.gf_value K NO tl s z1 z2 z3.
 Proof.
-  unfold LehmannGenChi.gf_value_src, Chi.gf_value. rewrite (proj1 (gen_tpgf_value_is_model K NO)).
+  unfold LehmannGenChi.gf_value_src, Chi.gf_value. rewrite !(proj1 (gen_tpgf_value_is_model K NO)).
   destruct (g_vanishing K s); [reflexivity|].
   rewrite <- part_values_sum.
   destruct (part_values_src K NO tl (g_parts K s) z1 z2 z3); reflexivity.
